@@ -147,6 +147,36 @@ def _after(sim, obs):
         for w in where:
             res.see('final_places', w)
 
+    # raptor forwarding: once the master's queue is registered (and the
+    # registration was delivered: the history is settled) nothing addressed to
+    # it, or to any master ('*'), may stay in the scheduler's backlog.  (After
+    # an unregistration the backlog is failed, but tasks arriving later wait
+    # for the next registration, so nothing is required of the backlog then
+    # beyond the partition rule: in exactly one place, reported once.)
+    if sim.case.get('raptor'):
+        res.count('raptor_histories')
+        wanted = getattr(sim, 'raptor_wanted', None)
+        for uid in sim.submitted:
+            t = sim.tasks[uid]
+            if not t.get('raptor_id') or t.get('raptor_seen') or t['ranks'] <= 0:
+                continue
+            where = sim.places(uid)
+            res.count('raptor_tasks_checked')
+            for w in where:
+                res.see('raptor_places', w)
+            if 'started' in where:
+                res.violation('raptor-task-scheduled-locally',
+                              '%s (raptor_id %s) was placed by the pilot '
+                              'scheduler: %s' % (uid, t['raptor_id'], where),
+                              {'case': sim.case, 'trace': sim.trace})
+            if 'raptor-backlog' in where:
+                if wanted is True:
+                    res.violation('raptor-backlog-not-flushed',
+                                  '%s (raptor_id %s) still in the backlog '
+                                  'although the queue is registered'
+                                  % (uid, t['raptor_id']),
+                                  {'case': sim.case, 'trace': sim.trace})
+
 
 def _nontrivial(sim):
     return bool(sim.finals) or any(a[0] == 'step' and a[1] == 'waitpool'
